@@ -28,6 +28,21 @@ theorem imageCube_inCube {n : Nat} (hn : 2 ≤ n ∧ n ≤ 5) (m : Nat) (x : ℝ
 theorem getR_replicate {n i : Nat} (hi : i < n) (c : ℝ) : getR (List.replicate n c) i = c := by
   rw [getR_eq_getElem (by simpa using hi)]; simp
 
+/-- a coordinate difference is at most the Euclidean distance -/
+theorem abs_getR_sub_le_dist2 {n : Nat} {a b : List ℝ} (ha : a.length = n) (hb : b.length = n)
+    {i : Nat} (hi : i < n) : |getR a i - getR b i| ≤ dist2 a b := by
+  unfold dist2
+  apply Real.abs_le_sqrt
+  rw [sqDist_eq_sum ha hb]
+  exact Finset.single_le_sum (f := fun j => (getR a j - getR b j)^2)
+    (fun j _ => sq_nonneg _) (Finset.mem_range.2 hi)
+
+/-- a coordinate function is `1`-Lipschitz (example of a Lipschitz objective) -/
+theorem lipCube_coord {n i : Nat} (hi : i < n) : LipCube n (fun q => getR q i) 1 := by
+  intro a b ha hb
+  rw [one_mul]
+  exact abs_getR_sub_le_dist2 ha.1 hb.1 hi
+
 /-- a Lipschitz constant on a cube of positive dimension is non-negative -/
 theorem LipCube.nonneg {n : Nat} (hn : 0 < n) {f : List ℝ → ℝ} {L : ℝ} (h : LipCube n f L) :
     0 ≤ L := by
